@@ -45,8 +45,11 @@
    Everything [gen_file] mutates is its own record [jstate]; the derived,
    access-logging copy of the generator (Generated/JsGenTrace.v, regenerated
    from the text of Model/JsGen.v on every run) records one entry per look at
-   a tree node and per read / update of that record, and
-   [C09_jsgen_no_shared_writes] says that nothing else is ever logged;
+   a tree node and per read / update of that record;
+   [C09_jsgen_traced_is_model] proves that it computes what the model computes
+   (a simulation lemma per definition, Generated/JsGenSim.v, regenerated with
+   the copy) and [C09_jsgen_no_shared_writes] says that nothing else is ever
+   logged, on succeeding and on failing generations;
    a compilation is a private computation (any number of updates of the
    registry it builds, in the thread's own location, then a result of any
    type); Proofs/ConcCompileInst.v instantiates it with [compile] of
@@ -61,7 +64,8 @@
 
    Generated inputs of this property (tablegen): Generated/PkgState.v by
    90-pkgvars (marker pkg_state_generated in Generated/Tables.v),
-   Generated/JsGenTrace.v by 95-jsgen-trace (marker jsgen_trace_derived);
+   Generated/JsGenTrace.v and Generated/JsGenSim.v by 95-jsgen-trace (marker
+   jsgen_trace_derived);
    a failure of either generator is charged to this property. *)
 From Coq Require Import List Arith.
 From Soy Require Import Model.Bytes Model.Values Model.Outcome Model.Ast Model.Interp Model.JsGen Generated.JsGenTrace
@@ -135,13 +139,24 @@ Print Assumptions C09_render_trace.
 
 (* ---------------- (i') JavaScript generation and compilation only write their own memory ---------------- *)
 
-(* for EVERY options (formatter, message bundle, map order), fuel and file: whatever the access-logging
-   generator logged is a look at a tree node or an access to the generator's own record; there is no
-   entry that is a write to shared memory *)
+(* THE ACCESS-LOGGING GENERATOR IS THE MODEL, for EVERY options (formatter, message bundle, map order),
+   fuel and file: its outcome (the chunks, or the failure) is [gen_file]'s.  Proved definition by
+   definition (Generated/JsGenSim.v: one simulation lemma per J-typed definition of Model/JsGen.v,
+   statements computed from the types and proofs by the generic tactics of Proofs/ConcJsSimBase.v,
+   regenerated together with the instrumented copy on every run), for ANY lawful lens [gen_file_sim] *)
+Theorem C09_jsgen_traced_is_model :
+  forall (o : jopts) (fuel : nat) (name : bstr) (body : list node),
+    fst (gen_file_traced o fuel name body) = JsGen.gen_file o fuel name body.
+Proof. exact gen_file_traced_result. Qed.
+Print Assumptions C09_jsgen_traced_is_model.
+
+(* ... and whatever it logged -- on a generation that succeeds AND on one that fails half way (the
+   instrumented monad keeps its state on failure) -- is a look at a tree node or an access to the
+   generator's own record; there is no entry that is a write to shared memory (true by the
+   construction of the instrumented primitives: stated so, not more) *)
 Theorem C09_jsgen_no_shared_writes :
-  forall (o : jopts) (fuel : nat) (name : bstr) (body : list node) (t : list jacc),
-    snd (gen_file_traced o fuel name body) = Some t ->
-    Forall (fun a => jacc_shared_write a = false) t.
+  forall (o : jopts) (fuel : nat) (name : bstr) (body : list node),
+    Forall (fun a => jacc_shared_write a = false) (snd (gen_file_traced o fuel name body)).
 Proof. exact jsgen_log_no_shared_write. Qed.
 Print Assumptions C09_jsgen_no_shared_writes.
 
@@ -153,13 +168,15 @@ Theorem C09_jsgen_compile_threads_disciplined :
     (forall o fuel file,
         disciplined rloc_eqb rowner i (cjsgen_prog CR i o fuel file) s
         /\ solo_result rloc_eqb (cjsgen_prog CR i o fuel file) s = CRJs (js_on o fuel file (s LFiles))
-        /\ disciplined rloc_eqb rowner i (cjsgen_fine_prog CR i o fuel file) s)
+        /\ disciplined rloc_eqb rowner i (cjsgen_fine_prog CR i o fuel file) s
+        /\ solo_result rloc_eqb (cjsgen_fine_prog CR i o fuel file) s = CRJs (js_on o fuel file (s LFiles)))
     /\ (forall c : ccompile CR,
         disciplined rloc_eqb rowner i (ccompile_prog i c) s
         /\ solo_result rloc_eqb (ccompile_prog i c) s = CRCompiled (cc_result c)).
 Proof.
   intros CR i s. split.
-  - intros o fuel file. split; [apply cjsgen_disciplined|]. split; [apply cjsgen_result|apply cjsgen_fine_disciplined].
+  - intros o fuel file. split; [apply cjsgen_disciplined|]. split; [apply cjsgen_result|].
+    split; [apply cjsgen_fine_disciplined|]. rewrite cjsgen_fine_result. now rewrite js_fine_on_model.
   - intros c. split; [apply ccompile_disciplined|apply ccompile_result].
 Qed.
 Print Assumptions C09_jsgen_compile_threads_disciplined.
@@ -239,19 +256,27 @@ Print Assumptions C09_any_access_placement.
      verification hook: there is no package-level pool, lock, Once, channel, lazily assigned variable;
    - every write to a package-level variable is in an init function (commands excepted);
    - every method called on one is a reviewed read-only / internally locked method;
-   - every write through a shared type is Registry.Add building the registry under compilation or a
-     capped append; the JavaScript generator has none, the renderer only the capped append. *)
+   - every write through a shared type -- directly, or in a callee of any package of the repository (the
+     sources are type-checked; calls through interfaces are resolved to every implementing type) -- is
+     Registry.Add building the registry under compilation, a capped append, or the one reviewed LATENT
+     HAZARD the callee analysis found: ast.MsgNode.Placeholder, called by evalMsgParts of the renderer and
+     of the JavaScript generator, appends to a queue that starts as the body's own (shared) child slice;
+     no input makes that append write shared memory (a message body with a non-placeholder parent child
+     is a single plural node, built with capacity = length = 1 by the parser: Model/ConcGlobals.v,
+     [reviewed_latent_writes]; the race harness probes that invariant on every parsed bundle).  The
+     JavaScript generator has no other, the renderer only the capped append besides. *)
 Theorem C09_package_state_quiet :
   (forall d n k, In (d, n, k) pkg_vars -> kind_quiet k = true \/ In (d, n, k) reviewed_loud_vars)
   /\ (forall w, In w pkg_var_writes -> write_in_init w = true)
   /\ (forall m, In m pkg_var_methods -> method_reviewed m = true)
   /\ (forall w, In w shared_type_writes -> shared_write_benign w = true)
-  /\ filter (in_pkg k_soyjs) shared_type_writes = []
-  /\ (forall w, In w (filter (in_pkg k_soyhtml) shared_type_writes) -> kind_of_write w = k_capped).
+  /\ (forall w, In w (filter (in_pkg k_soyjs) shared_type_writes) -> reviewed_latent w = true)
+  /\ (forall w, In w (filter (in_pkg k_soyhtml) shared_type_writes) -> kind_of_write w = k_capped \/ reviewed_latent w = true).
 Proof.
   split; [exact package_vars_quiet|]. split; [exact package_writes_only_in_init|].
   split; [exact package_methods_reviewed|]. split; [exact shared_type_writes_benign|].
-  split; [exact soyjs_never_writes_through_shared_types|exact soyhtml_writes_through_shared_types_only_capped].
+  split; [exact soyjs_never_writes_through_shared_types|].
+  exact soyhtml_writes_through_shared_types_only_capped.
 Qed.
 Print Assumptions C09_package_state_quiet.
 
@@ -324,9 +349,24 @@ Proof. vm_compute. repeat split; reflexivity. Qed.
 (* the traced generator logs tree reads and own accesses on this file, and produces the text of gen_file *)
 Example C09_trace_nonvacuous :
   match gen_file_traced ex_opts 20 (jf_name ex_file) (jf_body ex_file) with
-  | (Ok cs, Some t) =>
+  | (Ok cs, t) =>
       Ok cs = JsGen.gen_file ex_opts 20 (jf_name ex_file) (jf_body ex_file)
       /\ (let '(r, o, w) := jacc_count t in Nat.leb 4 r && Nat.leb 10 o && Nat.leb 10 w = true)
+  | _ => False
+  end.
+Proof. vm_compute. split; reflexivity. Qed.
+
+(* a generation that fails half way (the second template prints through a directive the generator does
+   not know) still has its log: the accesses up to the failure *)
+Definition ex_bad_file : jfile :=
+  {| jf_name := b "bad.soy";
+     jf_body := jf_body ex_file ++
+       [NTemplate 9 (b "ns.t2") (NList 9 [NPrint 10 (NDataRef 11 wit_x []) [NDirective 12 (b "noSuchDirective") []]]) 0 false] |}.
+Example C09_failing_trace_nonvacuous :
+  match gen_file_traced ex_opts 20 (jf_name ex_bad_file) (jf_body ex_bad_file) with
+  | (Err e, t) =>
+      Err e = JsGen.gen_file ex_opts 20 (jf_name ex_bad_file) (jf_body ex_bad_file)
+      /\ (let '(r, o, w) := jacc_count t in Nat.leb 6 r && Nat.leb 10 o && Nat.leb 10 w = true)
   | _ => False
   end.
 Proof. vm_compute. split; reflexivity. Qed.
